@@ -289,7 +289,7 @@ def protosReq (ts : List String) : String :=
         let ns := make rows
         let fuel := fuelFor ns.defs
         "ok " ++ ";".intercalate (parents.map (fun parent =>
-          let ps := (NsA.protos fuel ns pd parent).map showPD
+          let ps := (NsA.protosLoop fuel ns pd parent).map showPD
           let ps := (ps.mergeSort (fun a b => decide (a ≤ b))).eraseDups
           "|".intercalate ps))
 
